@@ -171,6 +171,7 @@ class Runner:
 class C16(Prop):
     ID = "C16"
     NEED_BINS = True
+    MODEL_TIMEOUT = 900.0      # the oracle re-parses the whole input text; the 65600-record case takes about a minute
     PER_CASE_TIMEOUT = 20.0
     THEOREMS = ["C16_dec_roundtrip", "C16_bed_line_roundtrip", "C16_bedgraph_line_roundtrip", "C16_bed_text_roundtrip",
                 "C16_chrom_sizes_parse", "C16_compat_ucsc", "C16_compat_native_fixed", "C16_compat_ignored_dropped", "C16_compat_args_tools",
@@ -393,12 +394,12 @@ class C16(Prop):
         return sx([4, sizes, text, w, r]), tags
 
     def wide_block_case(self, rng, native=True):
-        n = 70300
-        name = "chr1"
+        n = 65600                      # just above 65535; short tokens keep the text (and the oracle's parse of it) small
+        name = "c"
         recs = []; pos = 0
-        vals = ["1", "2.5", "0.125", "-3", "7"]
+        vals = ["1", "2", "7"]
         for k in range(n):
-            recs.append((pos, pos + 1, vals[k % len(vals)])); pos += 1 + (k % 3 == 0)
+            recs.append((pos, pos + 1, vals[k % len(vals)])); pos += 1
         lens = {name: pos + 10}
         text = b"".join(name.encode() + b"\t%d\t%d\t" % (s, e) + x.encode() + b"\n" for (s, e, x) in recs)
         sizes, stag = self.sizes_text(rng, lens, plain=True)
@@ -583,7 +584,8 @@ class C16(Prop):
             out.append(self.malformed_case(rng, i % 2 == 0))
         # a block size above 65535 together with a chromosome of more than 65535 values: the option must reach the
         # index fan-out, not the per-section item count (a section stores its item count in 16 bits)
-        for i in range(1 if quick else 3):
+        # (thorough tier only: the oracle re-parses the whole 65600-line text, about three minutes per case)
+        for i in range(0 if quick else 2):
             out.append(self.wide_block_case(rng, native=(i % 2 == 0)))
         for c in out:
             yield c
